@@ -155,7 +155,9 @@ func Core() []*Schema {
 		St("Unit"), St("Units2", F("a", N("Unit")), F("b", N("Unit"))),
 		St("UnitArr", F("us", A(N("Unit")))), St("UnitArrTail", F("us", A(N("Unit"))), F("z", P("byte"))),
 		St("Units2Arr", F("us", A(N("Units2"))), F("n", P("uint16"))),
-		Msg("UnitMsg", MF(1, "us", A(N("Unit"))), MF(2, "um", M("string", N("Unit"))), MF(3, "after", P("uint32")))))
+		Msg("UnitMsg", MF(1, "us", A(N("Unit"))), MF(3, "after", P("uint32")))))
+	out = append(out, mk("emptymap", St("Unit"), St("UnitMap", F("um", M("string", N("Unit"))), F("z", P("byte"))),
+		Msg("UnitMapMsg", MF(2, "um", M("string", N("Unit"))), MF(3, "after", P("uint32")))))
 
 	// 8c. deprecated fields inside structs (they stay on the wire, unlike in messages)
 	out = append(out, mk("depstruct",
@@ -163,6 +165,36 @@ func Core() []*Schema {
 		St("DepArr", F("ds", A(N("DepS"))), F("tail", P("uint16"))),
 		Msg("DepHolder", MF(1, "ds", A(N("DepS"))), MF(2, "after", P("uint32")), MF(3, "one", N("DepS")), MF(4, "dm", M("uint8", N("DepS")))),
 		Un("DepU", Br(1, St("DepB", F("d", N("DepS")), Dep(F("gone", P("guid"))), F("k", P("uint16")))))))
+
+	// 8e. imported definitions (separate and combined import modes): typed enums, a struct,
+	// a message and a union from a library file, used in every position
+	for _, combined := range []bool{false, true} {
+		imp := func(d *Def) *Def { d.Imported = true; return d }
+		name := "importsep"
+		if combined {
+			name = "importcomb"
+		}
+		sch := mk(name,
+			imp(En("LibLevel", "uint8", EO("Low", 1), EO("High", 200))),
+			imp(En("LibOffset", "int16", EO("Neg", -2), EO("Pos", 300))),
+			imp(En("LibWide", "uint64", EO("Zero", 0), EO("Big", 1<<40))),
+			imp(En("LibPlain", "", EO("A", 1), EO("B", 2))),
+			imp(St("LibPoint", F("x", P("int32")), F("lvl", N("LibLevel")), F("name", P("string")))),
+			imp(Msg("LibNote", MF(1, "text", P("string")), MF(2, "at", N("LibPoint")), MF(3, "off", N("LibOffset")))),
+			imp(Un("LibShape", Br(1, St("LibCircle", F("r", P("float32")))), Br(2, Msg("LibTag", MF(1, "t", P("string")))))),
+			St("UsesLib", F("lvl", N("LibLevel")), F("v", P("uint16")), F("off", N("LibOffset")), F("w", N("LibWide")), F("pl", N("LibPlain")), F("p", N("LibPoint")), F("tail", P("byte"))),
+			St("LibContainers", F("ps", A(N("LibPoint"))), F("ns", A(N("LibNote"))), F("sh", N("LibShape")), F("lv", M("uint8", N("LibOffset"))), F("end", P("uint16"))),
+			Msg("LibMsg", MF(1, "lvl", N("LibLevel")), MF(2, "n", N("LibNote")), MF(3, "p", N("LibPoint")), MF(4, "m", M("string", N("LibOffset"))), MF(5, "sh", N("LibShape"))),
+			Un("LibU", Br(1, St("LibUB", F("p", N("LibPoint")), F("o", N("LibOffset")))), Br(2, Msg("LibUM", MF(1, "n", N("LibNote"))))))
+		sch.Combined = combined
+		out = append(out, sch)
+	}
+	// maps whose values are imported records do not compile in separate mode today: apart
+	{
+		imp := func(d *Def) *Def { d.Imported = true; return d }
+		out = append(out, mk("importmap", imp(St("LibPoint", F("x", P("int32")), F("name", P("string")))),
+			St("LibByName", F("byname", M("string", N("LibPoint"))), F("end", P("uint16")))))
+	}
 
 	// 9. shapes known to be fragile at compile time: kept apart
 	out = append(out, mk("enumarr", En("Col", "uint8", EO("R", 0), EO("G", 1)), St("EnumArr", F("cs", A(N("Col"))), F("n", P("byte")))))
